@@ -12,9 +12,9 @@ Definition U1 : str := S_ "u@example.com".
 Definition U2 : str := S_ "v@example.com".
 Definition KU1 : key := KUser (S_ "u") (S_ "example.com").
 Definition clk0 : nat -> Z := fun _ => 100.
-Definition p_plain : parsed := mkParsed true false 3 Single.
-Definition p_noparse : parsed := mkParsed false false 2 Single.
-Definition p_nob : parsed := mkParsed true false 5 MultiNoBoundary.
+Definition p_plain : parsed := mkParsed true false 3 Single 0 false.
+Definition p_noparse : parsed := mkParsed false false 2 Single 0 false.
+Definition p_nob : parsed := mkParsed true false 5 MultiNoBoundary 0 false.
 
 (** ---- the result map, on a world whose INBOX has UIDNEXT behind ----------------- *)
 
@@ -91,5 +91,5 @@ Definition h_mixed : list wop :=
    WImap KU1 100 (OUidStore 1 [URange 1 2] SAdd [S_ "\Deleted"]);
    WImap KU1 100 (OExpunge 1);
    WImap KU1 101 (ORename INBOX (S_ "Old") 101)].
-Definition p_multi : parsed := mkParsed true false 5 (MultiB 3).
+Definition p_multi : parsed := mkParsed true false 5 (MultiB 3) 1 false.
 Definition rs_mixed : list str := [U1; U2; R1; U1; S_ "bad"; S_ "x@y@z"].
